@@ -41,7 +41,7 @@ func init() {
 }
 
 var c11HeldKinds = []string{"read", "stat", "clunk", "remove", "walknew", "attach", "open", "create"}
-var c11Cuts = []string{"close", "reset", "writefail", "midframe", "unread", "unread+tversion"}
+var c11Cuts = []string{"close", "reset", "writefail", "midframe", "unread", "unread+tversion", "badframe-undersize", "badframe-oversize", "badframe-type"}
 
 func c11Cases(tier string, seed int64) []core.Case {
 	var cases []core.Case
@@ -376,6 +376,21 @@ func c11One(res *core.Result, seed int64, hi, maxpend int, dotu bool, cut, nheld
 	case "midframe":
 		_ = v.SendRaw([]byte{23, 0, 0, 0, wire.Tread, 1, 2, 0, 0})
 		time.Sleep(200 * time.Microsecond)
+		v.Hangup()
+	case "badframe-undersize", "badframe-oversize", "badframe-type":
+		// the connection ends because the server itself gives it up: a frame that announces less than a header, more
+		// than msize, or carries an undefined type; the client goes away afterwards
+		var g []byte
+		switch cutKind {
+		case "badframe-undersize":
+			g = []byte{byte(cut % 7), 0, 0, 0, wire.Tclunk, 1, 0, 0, 0, 0, 0}
+		case "badframe-oversize":
+			g = []byte{0, 0, 0, 0x10, wire.Twrite, 1, 0, 9, 9, 9, 9}
+		default:
+			g = []byte{11, 0, 0, 0, 99, 1, 0, 0, 0, 0, 0}
+		}
+		_ = v.SendRaw(g)
+		v.WaitClosed(2 * time.Second)
 		v.Hangup()
 	case "unread":
 		// the client stops reading: the server's writer blocks in its transport write with answered requests
